@@ -211,6 +211,23 @@ theorem normalize_similarity_invariant (h : BInv isZero F P N D b) (hF : 0 < F) 
     ring
   rw [hdata]
 
+/-- **Normalising is not a one-shot operation**: normalising a pose that was normalised before (any earlier scale `s₁ > 0`) gives exactly what normalising the
+    original gives — the first normalisation is a similarity transform, which the second removes. -/
+theorem normalize_twice {isZero : ℝ → Bool} {F P N D : Nat} {b : PBody ℝ} (h : BInv isZero F P N D b) (hF : 0 < F) (hP : 0 < P) (hN : 0 < N) (p1 p2 : Nat) (s₁ s₂ : ℝ) (hs₁ : 0 < s₁)
+    (b₁ b₂ : PBody ℝ) (c₁ c₂ : List ℝ) (md₁ md₂ : ℝ)
+    (h1 : normalizeBody RS isZero p1 p2 s₁ b = some (b₁, c₁, md₁)) (h2 : normalizeBody RS isZero p1 p2 s₂ b = some (b₂, c₂, md₂)) (hmd : md₁ ≠ 0) :
+    ∃ c md, normalizeBody RS isZero p1 p2 s₂ b₁ = some (b₂, c, md) := by
+  obtain ⟨hb1, _, hm1⟩ := normalizeBody_eq p1 p2 s₁ b b₁ c₁ md₁ h1
+  obtain ⟨_, _, hm2⟩ := normalizeBody_eq p1 p2 s₂ b b₂ c₂ md₂ h2
+  have hmd2 : md₂ ≠ 0 := by
+    rw [hm1] at hm2; cases hm2; exact hmd
+  have hmd0 : 0 < md₁ := by
+    obtain ⟨hl, rfl⟩ := meanOpt_some hm1
+    have : 0 ≤ (distVals RS b p1 p2 (numDimsBody b)).sum / ((distVals RS b p1 p2 (numDimsBody b)).length : ℝ) :=
+      div_nonneg (List.sum_nonneg (distVals_nonneg b p1 p2 _)) (by positivity)
+    exact lt_of_le_of_ne this (Ne.symm hmd)
+  rw [hb1]
+  exact normalize_similarity_invariant h hF hP hN p1 p2 s₂ (s₁ / md₁) (div_pos hs₁ hmd0) (fun d => -(c₁.getD d 0) * (s₁ / md₁)) b₂ c₂ md₂ h2 hmd2
 /-- **the first line point goes to the origin** -/
 theorem line_p1_at_origin (info : Norm3DInfo) (size : ℝ) (pts : List (V3S ℝ)) (h : info.line.1 < pts.length) :
     (normalize3DPerson RS info size pts).getD info.line.1 default = (0, 0, 0) := by
